@@ -32,6 +32,11 @@ CHECKS = {
   text="Proof: the durability rule (written files fsynced before a rename makes them visible, directories with changed visible entries fsynced afterwards, nothing pending at the end) is a decidable monitor over operation traces; it is proved to accept the model trace of upload, set_meta, delete, move, create_collection (any n items), makedirs. Tie: per request type and configuration the interposer's log, reduced to operations outside cache/lock and with temporary names renumbered, must equal the model trace; the same Lean monitor (driver) and an independent Python monitor run on the observed trace.",
   note="Trusted: Lean kernel, standard axioms; interposer + canonicaliser; what the disk does with fsync; cache/temporary files exempt as the property states.",
   ref="5/C12"),
+ "C06": dict(
+  technique="Lean 4 theorems (shape and idempotence of sanitize_path, path_to_filesystem accepts only ordinary names, token names are safe, storage traces stay below the collection, the shell reads shlex.quote(s) as the single word s) + differential correspondence and a syscall-level confinement monitor under an LD_PRELOAD interposer",
+  text="Proof: sanitize_path is modelled on top of posixpath.normpath and proved to yield only clean absolute paths (and to be idempotent); path_to_filesystem is proved to refuse any component that is a dot-name, ends in '~' or contains a separator; shlex.quote is proved, against a model of POSIX word splitting, to produce exactly one word equal to its input for every string. Tie: the Python functions vs the model on generated hostile strings, the real /bin/sh on shlex.quote output, and requests with hostile text in all six client channels observed by the interposer: no path outside the storage folder is touched, decoys are never served, reserved names never change, the hook executes only the configured command.",
+  note="Trusted: Lean kernel, standard axioms; interposer; the model of sh word splitting (validated against /bin/sh each run); POSIX branch only (Windows drive/ADS branches not modelled); case-sensitive file system.",
+  ref="5/C06"),
 }
 
 NA_REASON = "check not built yet (work in progress; see DESIGN.md section 5 for the plan)"
